@@ -245,7 +245,7 @@ func init() {
 				conns := []connVar{{"", "", false}, {"10.7.7.7:99", "", false}}
 				switch ep.name {
 				case "protected-anon", "start", "signout", "authonly-anon", "api-anon":
-					conns = append(conns, connVar{"@", "", false}, connVar{"", "internal.lb:8080", false}, connVar{"", "", true})
+					conns = append(conns, connVar{"@", "", false}, connVar{"", "internal.lb:8080", false}, connVar{"", "", true}, connVar{"", noHost, false})
 				}
 				for _, cv := range conns {
 					remote := cv.remote
